@@ -71,11 +71,13 @@ CLAIMS = {
             'changed in place unless owned per instance)',
             'handler result shapes from C09.R1; what OctoPrint passes to the live hook is assumed to be the stripped command'),
     'C11': ('abstract interpretation of on_event for every event constant x active flag x clear setting against the '
-            'reference transition table; hooks with no active print return None without effects; writer census of the flag',
+            'reference transition table; hooks with no active print return None without effects; writer census of the flag; '
+            'the clear-after-print field is refreshed from the stored setting on every path of the settings handler, raising ones included',
             'OctoPrint event delivery and distinctness of event names trusted; stored settings valid'),
     'C12': ('abstract interpretation of every API command (add, update, delete, unknown) under (printing, shrinking disallowed): refusal is '
             'effect free, a replacement is dominated by new.containsRegion(old)=True on the id-matched slot; writer census '
-            'of the region list and of region geometry fields',
+            'of the region list and of region geometry fields; the may-shrink field is refreshed from the stored setting on every '
+            'path of the settings handler; the containment predicates themselves (all C17 rules)',
             'soundness of containsRegion itself is C17; regions reachable only through the state list'),
     'C13': ('abstract interpretation of every API command and event: id-uniqueness guard, access check first, '
             'mutation/notification pairing on every path, payload shape agreement between notification and GET, one id relation '
